@@ -506,12 +506,27 @@ impl<'w> Judge<'w> {
 
     // ---------------------------------------------------------------- C19
 
+    fn c19_leg(&self, case: &Case, caps: AllocCaps, tag: u64) -> LegOut {
+        if let Level::Pb(_) = &case.level {
+            run_pb(case, case.run_stream, caps, tag)
+        } else if case.run_mem {
+            run_mem(case, &self.w.gens, caps, tag)
+        } else {
+            run_stream(case, &self.w.gens, caps, tag)
+        }
+    }
+
     fn c19(&mut self, case: &Case) -> Vec<Violation> {
         let tag = case.unit << 20 | case.idx;
         let bound = Self::alloc_bound(case.bytes.len());
         let caps = AllocCaps { single: bound, window: 4 * bound };
         let mut v = vec![];
-        let leg = if case.run_mem { "mem" } else { "stream" };
+        let leg = match (&case.level, case.run_mem) {
+            (Level::Pb(_), true) => "bytes",
+            (Level::Pb(_), false) => "simbuf",
+            (_, true) => "mem",
+            _ => "stream",
+        };
         // three repetitions: one-time lazy initialisation must not count as a leak
         let mut deltas = [0isize; 3];
         let mut is_err = false;
@@ -521,7 +536,7 @@ impl<'w> Judge<'w> {
         for (i, d) in deltas.iter_mut().enumerate() {
             let before = alloc::live();
             {
-                let o = if case.run_mem { run_mem(case, &self.w.gens, caps, tag) } else { run_stream(case, &self.w.gens, caps, tag) };
+                let o = self.c19_leg(case, caps, tag);
                 if i == 0 {
                     record(&mut self.stats, case, leg, &o);
                     let mut stats = std::mem::take(&mut self.stats);
@@ -559,7 +574,7 @@ impl<'w> Judge<'w> {
                 let reps = 1500;
                 let before = alloc::live();
                 for _ in 0..reps {
-                    let o = if case.run_mem { run_mem(case, &self.w.gens, caps, tag) } else { run_stream(case, &self.w.gens, caps, tag) };
+                    let o = self.c19_leg(case, caps, tag);
                     drop(o);
                 }
                 let growth = alloc::live() - before;
